@@ -128,6 +128,39 @@ class BetaProxy:
         return self.beta_qcd((5, 0), nf)
 
 
+class ExactBetaProxy:
+    """Stands in for `eko.beta` with the exact rational QCD coefficients of the literature (refs/rge_literature.py, checked against
+    eko.beta by C20) *at the nf it is asked for*: unlike BetaProxy it distinguishes flavour numbers, and unlike the float values of
+    eko.beta it keeps exact cancellations exact."""
+
+    def __init__(self, real):
+        self._real = real
+        self.asked = []
+
+    def __getattr__(self, n):
+        return getattr(self._real, n)
+
+    def beta_qcd(self, k, nf):
+        from refs import rge_literature as lit
+
+        if k[1] == 0 and k[0] in (2, 3, 4) and isinstance(nf, int):
+            self.asked.append((k, nf))
+            return SR(Q(Poly.const({2: lit.beta0, 3: lit.beta1, 4: lit.beta2}[k[0]](nf))))
+        return self._real.beta_qcd(k, nf)
+
+    def b_qcd(self, k, nf):
+        return self.beta_qcd(k, nf) / self.beta_qcd((2, 0), nf)
+
+    def beta_qcd_as2(self, nf):
+        return self.beta_qcd((2, 0), nf)
+
+    def beta_qcd_as3(self, nf):
+        return self.beta_qcd((3, 0), nf)
+
+    def beta_qcd_as4(self, nf):
+        return self.beta_qcd((4, 0), nf)
+
+
 class As4Proxy:
     """as4_evolution_integrals with roots() replaced by given symbolic roots (argument-checked against the
     b-coefficients the roots belong to, so the stub cannot mask a wrong argument)."""
